@@ -65,6 +65,15 @@ def scenarios(rep, tier, seed):
             kmax = max(scn["Y"]) + 1
             scn["Yv"] = [(y + 1) % kmax for y in scn["Yv"]]
             scn["Yv"][0] = kmax - 1
+        if i % 3 == 0 and scn["mode"] == "metric":
+            # the object was fitted before on an easy, well separated set (high accuracies / low cuts to "remember")
+            import numpy as np
+            r = np.random.default_rng(rng.randrange(2**31))
+            m_ = max(scn["max_k"] + 2, 8)
+            yy = np.array([j % 2 for j in range(m_)])
+            scn["prefit"] = {"X": (r.normal(size=(m_, len(scn["Z"][0]))) * 0.1 + 10.0 * yy[:, None]).tolist(), "Y": yy.tolist(),
+                             "Xv": (r.normal(size=(4, len(scn["Z"][0]))) * 0.1 + 10.0 * np.array([0, 1, 0, 1])[:, None]).tolist(), "Yv": [1, 1, 0, 0]}
+            scn["prefit"]["Yv"] = [0, 1, 0, 1]
         if not K.materialise(scn):
             continue
         scns.append(scn)
